@@ -18,6 +18,9 @@ def loader_table(prog):
 
 def run(chk):
     prog = mir.prog()
-    panics.run_scope(chk, "R17-panic", prog, scopes.decode_scope(prog), what="panic obligations in loader::load / read_data / decode_raw_bytes", floor=30)
+    # "no byte sequence makes the loader panic": the decoder, and the scanner that is the first to look at the decoded text byte by byte
+    # (slices of the text at computed positions must fall on character boundaries)
+    scope = set(scopes.decode_scope(prog)) | {f for f, b in prog.bodies.items() if b.file in ("a2lfile/src/loader.rs", "a2lfile/src/tokenizer.rs") and "::test" not in f and "::tests" not in f}
+    panics.run_scope(chk, "R17-panic", prog, scope, what="panic obligations in loader.rs (load / read_data / decode_raw_bytes) and in the scanner tokenizer.rs", floor=170)
     diag.compare(chk, "R17-decode", "loader", loader_table(prog), "decisions of the file loader / decoder (conversion calls, stripped prefixes, scan steps) with their control predicates, compared with the reviewed table", floor=20)
     chk.assumptions += ["not decided: that each encoding yields the same model (value-level decoding); R17-decode fixes which conversion is chosen when"]
